@@ -25,7 +25,7 @@ def variants(prop, case):
             return [{"lkind": ["list", "array", "tuple"][h % 3]}]     # a RaggedShape object is not "row lengths": see DESIGN 6.3
         return [{"layout": ["C", "F", "T", "strided"][h % 4]}]
     if op in ("getitem", "setitem"):
-        sp = ["plain", "tuple", "empty"][h % 3]
+        sp = ["plain", "tuple", "empty", "numpy", "numpy32"][h % 5]
         v = RVIAS[(h // 3) % len(RVIAS)]
         out = [{"via": "flat", "spelling": "plain"}, {"via": v, "spelling": sp, "pre": PRES[(h // 64) % len(PRES)]}]
         if op == "setitem":
@@ -35,7 +35,7 @@ def variants(prop, case):
     if op == "ufunc":
         return [{"via": "flat", "how": "ufunc"}, {"via": RVIAS[h % len(RVIAS)], "how": ["ufunc", "operator"][(h // 16) % 2], "pre": PRES[(h // 64) % len(PRES)]}]
     if op == "reduce":
-        return [{"via": "flat", "how": "method"}, {"via": RVIAS[h % len(RVIAS)], "how": ["method", "np"][(h // 16) % 2], "pre": PRES[(h // 64) % len(PRES)]}]
+        return [{"via": "flat", "how": "method"}, {"via": RVIAS[h % len(RVIAS)], "how": ["method", "np", "positional"][(h // 16) % 3], "pre": PRES[(h // 64) % len(PRES)]}]
     if op in ("scan", "nonzero", "col"):
         return [{"via": "flat"}, {"via": RVIAS[h % len(RVIAS)], "how": ["method", "np"][(h // 16) % 2], "pre": PRES[(h // 64) % len(PRES)]}]
     if op in ("like", "pad"):
@@ -108,7 +108,7 @@ def nontrivial(prop, case):
 
 def heap_variants(prop, case):
     h = _h(case)
-    return [{"via0": "flat", "spelling": "plain"}, {"via0": RVIAS[h % len(RVIAS)], "spelling": ["plain", "tuple", "empty"][(h // 16) % 3]}]
+    return [{"via0": "flat", "spelling": "plain"}, {"via0": RVIAS[h % len(RVIAS)], "spelling": ["plain", "tuple", "empty", "numpy", "numpy32"][(h // 16) % 5]}]
 
 
 def hash_variants(prop, case):
